@@ -17,7 +17,7 @@ CHECKS = {
          "per grammar every sequence of ≤3 (thorough ≤4) tokens over comment delimiters, tag fragments, a rule-laden start tag, quotes, newline, NBSP, combining mark, emoji, and ≤4 (≤5) over the core tokens; every single-token insertion/replacement/deletion at every token boundary of a seed file for all 39 suffixes (thorough: pairs of insertions); every sequence of ≤3 (≤4) validator-hostile content lines (nan, inf, overflow, non-ASCII digits, CJK, …) × 8 rule configurations behind a rule-less block, with and without a byte order mark; diffs that modify one line of 3 000 / 60 000 (/ 400 000) bytes; per grammar 300 / 60 000 (/ 300 000) levels of nested brackets, elements or block quotes through the real binary, one process per run; every real `git diff` between files of ≤2 (≤3) diff-look-alike lines; each run in scan and diff mode must end in a report or an error, never a panic, abort or hang (10 s watchdog)",
          "\"any UTF-8 string\" is covered only through the token alphabets; tree-sitter internals are exercised, not modelled; two third-party findings (Markdown abort at 256 nested blocks, HTML/XML quadratic nesting) are recorded as known findings; 'promptly' = 10 s per run", "§2 C04"),
  "C05": ("model_checking", "E1", "explicit-state search (parallel BFS; stateright selectable) over attribute lists printed into six host comment forms; print/parse round trip against the printed AST",
-         "every attribute list of 0..2 (thorough 0..3) attributes over (5 names incl. non-ASCII and duplicate) × (14 value forms: bare, unquoted ASCII / non-ASCII / with - and _, empty, with space, `>`, other quote, `=<`, `</block>`, non-ASCII, a whole start tag) × 3 separators × 3 `=` layouts, 3 closing spellings, 8 surrounding noises, in `#`, `/* */`, `<!-- -->`, `//`, SQL `--` and Rust `///` hosts (names and values also containing `--`, `//`, `#`); attributes (last duplicate wins) and position of `<` compared; 17 look-alikes × noises × hosts alone and beside real blocks; 6 end-tag spellings",
+         "every attribute list of 0..2 (thorough 0..3) attributes over (5 names incl. non-ASCII and duplicate) × (14 value forms: bare, unquoted ASCII / non-ASCII / with - and _, empty, with space, `>`, other quote, `=<`, `</block>`, non-ASCII, a whole start tag) × 3 separators (CR LF in the long lists), lists of 4–6 attributes over five variants, values holding the comment marker of every line-comment form of every grammar × 3 `=` layouts, 3 closing spellings, 8 surrounding noises, in `#`, `/* */`, `<!-- -->`, `//`, SQL `--` and Rust `///` hosts (names and values also containing `--`, `//`, `#`); attributes (last duplicate wins) and position of `<` compared; 17 look-alikes × noises × hosts alone and beside real blocks; 6 end-tag spellings",
          "4–6 attributes not enumerated; host comments delivered by tree-sitter (C03)", "§2 C05"),
  "C06": ("model_checking", "E1", "explicit-state search (level-synchronous parallel BFS; stateright selectable) over content-line sequences, real validator executed in every state against a reference sorter",
          "every sequence of ≤4 (thorough ≤5) content lines over a 16-line alphabet (ordered, equal, prefix-related, indented, trailing blank, blank, numeric-looking, pattern lines, case) plus an extended unicode/number alphabet, under every direction spelling × pattern (incl. empty-capable group, end-anchored, to end of line) × format, next to violating companion blocks of the other sync validators, also with CRLF line ends and in a Markdown host whose start comment goes on after the tag; the real parse+validate pipeline runs in every state and must agree with the reference on presence, uniqueness and location of the diagnostic",
@@ -35,7 +35,7 @@ CHECKS = {
          "every repository of ≤2 (thorough ≤3) blocks over 2 files × 13 rule combinations (two of them flagging the same position with two rules) (each rule absent / satisfied / violated by construction) × 7 severity spellings: exit status 1 iff an error-severity diagnostic is expected, stderr one JSON object with every expected (file, block, code, severity) exactly once, root-relative keys, nothing printed without diagnostics, `list` exits 0 with all blocks; the same states under every block-map order × every order of the validator thread bodies (≈470k executions) for the exactly-once clause",
          "which rules a block violates is fixed by construction (C06–C09 decide rule semantics)", "§2 C11"),
  "C12": ("model_checking", "E1", "explicit-state search (parallel BFS; stateright selectable) over well-nested kit files; in every state every single-tag damage is applied and the real code must fail naming the file",
-         "for each grammar (all 39 suffixes) every well-nested file of ≤2 (thorough ≤3) kit segments × every tag × {deleted, duplicated, lost with its comment} × {alone, first, last, between healthy files} × {scan, list, diff, diff+glob, diff+non-matching glob}, plus stray tags (`</ block>`, `< /block >`, `<block>`, `</block>`) appended in a comment of their own: the run must fail at parsing with an error naming the damaged file",
+         "for each grammar (all 39 suffixes) every well-nested file of ≤2 (thorough ≤3) kit segments × every tag × {deleted, duplicated, lost with its comment} × {alone, first, last, between healthy files; through the CLI also present only as a symbolic link} × {scan, list, diff, diff+glob, diff+non-matching glob}, plus stray tags (`</ block>`, `< /block >`, `<block>`, `</block>`) appended in a comment of their own: the run must fail at parsing with an error naming the damaged file",
          "the all-lines-added diff emitter is validated against real git before the search; bounded scope", "§2 C12"),
  "C13": ("fault_enumeration", "E1+E2", "exhaustive enumeration of malformation × position × placement × block-map order, middle position under every schedule of the validator seams; real CLI for status and message",
          "81 malformations over every rule kind (unknown direction/format, non-numeric keys at each position, bad regex in 5 attributes, 16 bad line-count expressions, colon-less affects references, unknown severities, Lua script empty/missing/directory/invalid UTF-8/no validate, empty AI condition, missing key) × {alone, first, middle, last} × {same file, own file} × {as is, with satisfied sibling rules, nested in a healthy block, in a Markdown file} × all map orders, alone/middle also in diff mode with a non-matching path argument, the middle position under all schedules; every malformation × 3 placements through the real CLI: never exit 0, never a panic, always a message",
@@ -47,19 +47,19 @@ CHECKS = {
          "245k library cases (all trees of ≤3 paths incl. directories named a and b, spaces, dots × 0..2 globs × 0..2 ignores × diff naming ≤2 files or nothing) and 3.5k CLI cases × every directory as cwd (16k runs) with hidden files, a .gitignore'd directory and real `git diff`: listed files = ((walk ∖ hidden ∖ git-ignored) ∩ globs ∪ diff files) ∖ --ignore",
          "globset decides glob/path matching (same crate and options as the documented forms)", "§2 C15"),
  "C16": ("model_checking", "E1", "exhaustive enumeration (stateright grid) of suffix × name shape × -E mapping × content × mode against a reference suffix lookup and the kit's constructed blocks",
-         "39 registered suffixes × 11 file-name shapes (x.S, x.y.S, hidden via diff, dotted directories, names with spaces, upper-cased, .bak, no dot, ~, doubled suffix, suffix as directory) × 4 `-E` mappings × {native probe, unbalanced probe, garbage} × {scan, diff, diff+glob}; every ordered pair of 164 names (two stems, .bak, dot-less, look-alikes of compound suffixes) in one run, both walked or the second named by the diff only, each read exactly as alone; mapped names must yield exactly the constructed blocks, unmapped names nothing and no error; CLI slice for -E parsing/validation (rejected before any file is read)",
+         "39 registered suffixes × 11 file-name shapes (x.S, x.y.S, hidden via diff, dotted directories, names with spaces, upper-cased, .bak, no dot, ~, doubled suffix, suffix as directory) × 4 `-E` mappings × {native probe, unbalanced probe, garbage} × {scan, diff, diff+glob}; every ordered pair of 164 names (two stems, .bak, dot-less, look-alikes of compound suffixes) in one run, both walked or the second named by the diff only, each read exactly as alone; mapped names must yield exactly the constructed blocks, unmapped names nothing and no error; every ordered pair of names also as a rename + edit diff; whole-file-name -E keys; CLI slice for -E parsing/validation (rejected before any file is read)",
          "reference lookup written from the property text; the registered-suffix table is cross-checked with the implementation's", "§2 C16"),
  "C17": ("model_checking", "E1", "explicit-state reachability search inside the Lua interpreter (BFS over the object graph from the script's environment), run through the real CLI for every mode value",
          "for 9 values of BLOCKWATCH_LUA_MODE a probe script enumerates every table/function/userdata reachable from _G, _ENV and the string metatable through fields, keys and metatables (≈130 values, ≈270 edges per mode) and returns all reachable function paths; default class: the set must equal the allow-list (base minus dofile/loadfile/require + coroutine/table/string/utf8/math) with none of io/os/package/debug/require/dofile/loadfile; safe adds io/os/package/require but no debug and no working native loader; unsafe adds debug and native loading; 19 concrete escape attempts per default-class value with a canary file",
          "Lua has no ambient authority beyond reachable values; upvalues of C library functions are unreachable without debug; behaviour of package.loadlib is probed by calling it", "§2 C17"),
  "C18": ("model_checking", "E1+E2", "explicit-state search over block sets × stateless choice-prefix DFS over every schedule of the scheduling seams (JoinSet delivery order, thread-body order) and every block-map order; real code re-executed per schedule",
-         "every set of ≤3 (thorough ≤4) scripted blocks over 9 script behaviours (incl. a script keeping state outside validate) × 2 files; for each, all delivery orders of the check-lua JoinSet × thread-body orders × map orders (55k executions quick); scripts log every call, so exactly-once, file, line, attributes and content are compared; any failing script must fail the run in every schedule; every block set also in diff mode with a path argument that matches no file; plus content × pattern × attribute cases, 8/16/40 blocks under 3 delivery orders (capped) and a labelled free-running CLI supplement",
+         "every set of ≤3 (thorough ≤4) scripted blocks over 9 script behaviours (incl. a script keeping state outside validate) × 2 files; for each, all delivery orders of the check-lua JoinSet × thread-body orders × map orders (55k executions quick); scripts log every call, so exactly-once, file, line, attributes and content are compared; any failing script must fail the run in every schedule; every block set also in diff mode with a path argument that matches no file; plus content × pattern × attribute cases, start tags split over lines in three hosts, 8/16/40 blocks under 3 delivery orders (capped) and a labelled free-running CLI supplement",
          "tokio JoinSet contract trusted; intra-body interleavings not explored (bodies share only an immutable Arc)", "§2 C18"),
  "C19": ("fault_enumeration", "E1+E2", "exhaustive enumeration of reply/fault assignments to block sets × all delivery orders (choice-prefix DFS over the seams) against a recording fake endpoint keyed by request content",
          "every set of ≤2 (thorough ≤3) AI blocks over 10 replies and 11 endpoint faults × 2 files × all delivery orders; exactly one faithful request per block (path, bearer key, model, verbatim user message), OK-class ⇒ no diagnostic, other reply ⇒ one diagnostic quoting it on the start tag, any fault ⇒ run fails in every order; verbatim transport of 8 conditions × 7 contents × 4 patterns (quotes, backslashes, newlines, control characters, Unicode); whole-run faults: no key, empty key, connection refused",
          "async-openai/reqwest trusted for wire encoding; 5xx/429 (retried by the library) are outside the property's fault set", "§2 C19"),
  "C20": ("model_checking", "E2", "stateless exploration of every owned order (block-map iteration, file discovery, diff-section order) × choice-prefix DFS over the scheduling seams; one canonical observable per repository; CLI for every cwd",
-         "10 catalogue repositories (a type change whose diff has a deleted-file and a new-file section for one path, one error file among warning-only files (CLI only), mixed severities, cross-file affects in diff mode, diff + glob, Lua (stateless and stateful) + AI + sync rules, list with diff, a malformed rule, one block name modified in two files, a directory named like a source file): all block-map orders × file-discovery orders (quick: 3 of them) × all diff-section orders × every schedule of the seams (quick: ≤3 deviations, 27k executions; thorough: all) must give one single status + diagnostic multiset / listed blocks / error; every directory as cwd through the real CLI; fresh processes with 1/16 runtime workers as a labelled sampling supplement",
+         "11 catalogue repositories (a positional argument that is the plain name of a directory (CLI only), a type change whose diff has a deleted-file and a new-file section for one path, one error file among warning-only files (CLI only), mixed severities, cross-file affects in diff mode, diff + glob, Lua (stateless and stateful) + AI + sync rules, list with diff, a malformed rule, one block name modified in two files, a directory named like a source file): all block-map orders × file-discovery orders (quick: 3 of them) × all diff-section orders × every schedule of the seams (quick: ≤3 deviations, 27k executions; thorough: all) must give one single status + diagnostic multiset / listed blocks / error; every directory as cwd through the real CLI; fresh processes with 1/16 runtime workers as a labelled sampling supplement",
          "per-process hash seeds of maps other than the block map and real thread timing are not enumerable: argued order-insensitive, sampled by the supplement", "§2 C20"),
  "C09": ("model_checking", "E1", "explicit-state search (parallel BFS; stateright selectable) over content-line sequences × layouts, each state carrying the full (operator, spacing, N) grid",
          "every sequence of ≤5 (thorough ≤7) content lines over {statement, blank, whitespace-only, indented, comment, nested start/end tag} in every layout (tag on own line, content on the tag's line, both tags in one comment, adjacent comments) × 5 operators × 3 spacings × N 0..7, incl. layouts whose start tags all have a tab or a line break after `<block`; companions of the other sync validators; CRLF and byte order mark phases; lonely block with all sync rules × flag selections; presence and data.actual/op/expected of the diagnostic compared with the reference count",
